@@ -927,7 +927,7 @@ theorem valNfEq_refl : ∀ (f : Field) (obj : GoVal), RTOK f obj → valNfEq f (
       exact zip_self_all _ _ (fun e he => hmsg e (hv e he))
     | primitiveMap =>
       simp only [hk] at h ⊢
-      obtain ⟨_, _, hnn, _, hnd, k, _, hv⟩ := h
+      obtain ⟨_, _, _, hnd, k, _, hv⟩ := h
       simp only [beq_self_eq_true, Bool.true_and, List.all_eq_true]
       intro kv hkv
       have := lookup_of_mem_nodup _ kv.1 kv.2 hnd hkv
